@@ -28,12 +28,13 @@
           read parents in G, shared noise only along bidirected edges), `ν x ≠ ν x'`;
         - `G.WF` and no self-loop edges; the event is a dict (`EvOK`: unique keys, values named after their variable);
         - the worlds are a duplicate-free list of non-empty consistent subscript sets (a Python set of frozensets);
-        - `hpf`: the order in which the nodes are processed lists the model's parents before their children — what
-          `topological_sort` returns (that the MODEL of `topological_sort` does so is not proved in C14; the order is compared
-          with networkx on every C14 run).
+      NO hypothesis on the processing order: `cg_prob` is about the order the model of `topological_sort` computes;
+      `topologicalSort_spec` (Props/C14) shows that order is a linear extension of `G`, `before_of_isTopoOrder` turns this into
+      the parents-first condition used by the invariants (`cg_prob_of_parents_first` is the general form for any such order).
+    * `cg_total_acyclic`                     on a well-formed acyclic graph the construction always answers
     * `cg_prob_partial`, `lemma24For_of_parents`, `lemma24For_root`, `cg_inconsistent_sound_partial`
                                              earlier relative forms, kept (they need fewer hypotheses on the graph)
-  Nothing of C18 is left OPEN except the side condition `hpf` above.
+  Nothing of C18 is left OPEN.
 -/
 import Y0.Lemmas.CfGraph
 import Y0.Lemmas.CfFscm
@@ -350,7 +351,8 @@ theorem lemma24For_root (M : Model) (G : MG Name) (hM : Compatible M G) (ν : Ba
 /-! ## 3c. the probability clauses, UNCONDITIONALLY (Lemma 24 for the test as coded is proved in Lemmas/CfLemma24) -/
 
 open Fscm in
-/-- **C18, probability clauses.**  For every functional SCM `M` compatible with the (loop-free) graph `G`, all base values
+/-- C18, probability clauses, for an arbitrary parents-first processing order `topo` (the general form from which `cg_prob`
+follows).  For every functional SCM `M` compatible with the (loop-free) graph `G`, all base values
 with `x ≠ x'`, every well-formed event dict and every iteration order of its worlds (a duplicate-free list of non-empty,
 consistent subscript sets): if the nodes of `G` are processed parents-first (what `topological_sort` delivers),
   * the relabelled event returned by `make_counterfactual_graph` has the SAME probability as the original event, and
@@ -359,7 +361,7 @@ The proof carries two invariants through the merge loop: every parent of every u
 parent node of equal value (on the noise points where the conjuncts about earlier variables hold), and every
 name-prefix-restricted support of the current event equals that of the original one; `lemma24_of_test` derives the
 conclusion of Lemma 24 from `lemma_24_holds(...) = True` under these invariants. -/
-theorem cg_prob (M : Model) (ν : BaseValues) (hν : ν.Distinct) (G : MG Name) (hM : Compatible M G) (hG : G.WF)
+theorem cg_prob_of_parents_first (M : Model) (ν : BaseValues) (hν : ν.Distinct) (G : MG Name) (hM : Compatible M G) (hG : G.WF)
     (hdl : ∀ e ∈ G.di, e.1 ≠ e.2) (hbl : ∀ e ∈ G.bi, e.1 ≠ e.2)
     (ordf : List World → List World) (ev : Event) (hev : EvOK ev) (topo : List Name)
     (htopo : G.topologicalSort = .ok topo) (hpf : ∀ v, ∀ p ∈ M.pa v, Before topo v p)
@@ -391,6 +393,59 @@ theorem cg_prob (M : Model) (ν : BaseValues) (hν : ν.Distinct) (G : MG Name) 
     cases ht
     rw [hl] at hinv
     exact hinv
+
+/-- every linear extension of `G` lists the parents of the model before their children: the side condition of
+`cg_prob_of_parents_first` holds for whatever `topological_sort` returns (`topologicalSort_spec`, Props/C14) -/
+theorem before_of_isTopoOrder {G : MG Name} (hG : G.WF) {topo : List Name} (h : G.IsTopoOrder topo) {p v : Name}
+    (hpv : G.DiEdge p v) : Before topo v p := by
+  obtain ⟨l₁, l₂, l₃, hl⟩ := h.2 p v hpv
+  have hnd : topo.Nodup := h.1.nodup_iff.2 hG.nodup
+  unfold Before
+  have hsplit : topo = (l₁ ++ p :: l₂) ++ v :: l₃ := by rw [hl]
+  have hnotin : ∀ x ∈ l₁ ++ p :: l₂, x ≠ v := by
+    intro x hx hxv
+    subst hxv
+    rw [hsplit] at hnd
+    have := (List.nodup_append.1 hnd).2.2 x hx x (List.mem_cons_self)
+    exact this rfl
+  rw [hsplit, List.takeWhile_append_of_pos (by simpa using hnotin)]
+  simp
+
+open Fscm in
+theorem parentsFirst_of_topologicalSort {M : Model} {G : MG Name} (hM : Compatible M G) (hG : G.WF) {topo : List Name}
+    (htopo : G.topologicalSort = .ok topo) : ∀ v, ∀ p ∈ M.pa v, Before topo v p :=
+  fun v p hp => before_of_isTopoOrder hG (topologicalSort_spec G hG topo htopo) (hM.pa_sub v p hp)
+
+open Fscm in
+/-- **C18, probability clauses (no side condition on the processing order).**  For every functional SCM `M` compatible with
+the (loop-free, well-formed) graph `G`, all base values with `x ≠ x'`, every well-formed event dict and every iteration
+order of its worlds (a duplicate-free list of non-empty, consistent subscript sets):
+  * the relabelled event returned by `make_counterfactual_graph` has the SAME probability as the original event, and
+  * 'inconsistent' is returned ONLY IF the original event has probability 0.
+The nodes are processed in the order the model of `topological_sort` computes; `topologicalSort_spec` (C14) shows it is a
+linear extension of `G`, hence parents-first for every compatible model. -/
+theorem cg_prob (M : Model) (ν : BaseValues) (hν : ν.Distinct) (G : MG Name) (hM : Compatible M G) (hG : G.WF)
+    (hdl : ∀ e ∈ G.di, e.1 ≠ e.2) (hbl : ∀ e ∈ G.bi, e.1 ≠ e.2)
+    (ordf : List World → List World) (ev : Event) (hev : EvOK ev)
+    (hws : (ordf (extractInterventions ev.keys)).Nodup) (hwne : ∀ w ∈ ordf (extractInterventions ev.keys), w ≠ [])
+    (hwcs : ∀ w ∈ ordf (extractInterventions ev.keys), ConsistentSubs w) :
+    (∀ g ev', makeCounterfactualGraph ordf G ev = .ok (g, some ev') → probEvent M ν ev' = probEvent M ν ev) ∧
+    (∀ g, makeCounterfactualGraph ordf G ev = .ok (g, none) → probEvent M ν ev = 0) := by
+  cases htopo : G.topologicalSort with
+  | error e =>
+    have herr := (cg_error_iff_cyclic ordf G ev e).2 htopo
+    constructor
+    · intro g ev' h; rw [herr] at h; cases h
+    · intro g h; rw [herr] at h; cases h
+  | ok topo =>
+    exact cg_prob_of_parents_first M ν hν G hM hG hdl hbl ordf ev hev topo htopo
+      (parentsFirst_of_topologicalSort hM hG htopo) hws hwne hwcs
+
+/-- on an acyclic well-formed graph the construction never fails (with `topologicalSort_total`, C14) -/
+theorem cg_total_acyclic (ordf : List World → List World) (G : MG Name) (hG : G.WF) (hA : G.Acyclic) (ev : Event) :
+    ∃ r, makeCounterfactualGraph ordf G ev = .ok r := by
+  obtain ⟨topo, ht⟩ := topologicalSort_total G hG hA
+  exact cg_total ordf G ev topo ht
 
 /-- the side conditions of `cg_prob_partial` on the worlds hold for the identity order (hence for every permutation of it) -/
 theorem extractInterventions_ok (vs : List Var) :
@@ -490,6 +545,9 @@ example : Compatible mBA gBA := by
           · exact hvw hw1.symm
           · simp [mBA, hw, hw1] at hj2
       · simp [mBA, hv, hv1] at hj1
+
+/-- the model of `topological_sort` processes `B` before `A` on this graph -/
+example : gBA.topologicalSort = .ok [1, 0] := by decide
 
 /-- … and the processing order `[B, A]` lists parents first -/
 example : ∀ v, ∀ p ∈ mBA.pa v, Before [1, 0] v p := by
